@@ -471,6 +471,20 @@ example : R.Agree List.Perm (mixValues (1/4 : Rat) [("a", 1), ("b", 2)] [("a", 3
 example : (mixValues (1/4 : Rat) [("a", 1), ("b", 2)] [("a", 3), ("b", 5)]).toOption.isSome = true := by
   decide +kernel
 
+/-- non-vacuity of `arithmeticAverage_map_order`: two reference points whose coefficient maps are listed in opposite
+    orders; the average exists and has the same lookups as with the second point's map listed the other way round -/
+example : R.Agree KMap.LookupEq
+    (arithmeticAverage [("r", [("a", (1 : Rat)), ("b", 2)]), ("s", [("b", 4), ("a", 3)])])
+    (arithmeticAverage [("r", [("b", (2 : Rat)), ("a", 1)]), ("s", [("a", 3), ("b", 4)])]) :=
+  arithmeticAverage_map_order _ _ rfl (by
+    intro p hp
+    simp only [List.zip_cons_cons, List.zip_nil_right, List.mem_cons, List.not_mem_nil, or_false] at hp
+    rcases hp with rfl | rfl
+    · exact ⟨List.Perm.swap _ _ _, by decide⟩
+    · exact ⟨List.Perm.swap _ _ _, by decide⟩)
+example : (arithmeticAverage [("r", [("a", (1 : Rat)), ("b", 2)]), ("s", [("b", 4), ("a", 3)])]).toOption.isSome = true := by
+  decide +kernel
+
 end AnchoringAndMixing
 
 /-! ## END TO END: the whole response is a function of the request and of the seeds it names
